@@ -14,7 +14,7 @@ from harness import expr
 
 PROPERTY_ID = 'C06'
 RULE = ('Operation lists (3-25 ops) on one Sector with a sibling sector in the same country: flow(term, is_income, '
-        'defining expression or none), exclusion(this sector | sibling, flow name), define(variable, rhs). Terms: name, '
+        'defining expression or none), exclusion(this sector | sibling | same-coded sector of another country, flow name), define(variable, rhs). Terms: name, '
         'a*b, a/b, n*x, qualified names of variables of another sector whose local part equals one of the flow '
         'names (O__W next to W), in the spellings t,+t,-t,(t),(+t),(-t),-(-t),-(t) with optional spaces; few names so that repeats '
         'and cancellations are frequent. The invariant is checked after every operation. Non-trivial: the sequence '
@@ -55,7 +55,8 @@ def case(draw):
                 eqn = None      # (a qualified name cannot be DEFINED on the receiving sector: the framework passes none)
             ops.append(['flow', form % core, draw(st.booleans()), eqn])
         elif k <= 7:
-            ops.append(['excl', draw(st.sampled_from(['self', 'self', 'other'])), draw(st.sampled_from(CORES))])
+            # 'twin' = a sector with the SAME code in another country of the model: not this sector
+            ops.append(['excl', draw(st.sampled_from(['self', 'self', 'other', 'twin'])), draw(st.sampled_from(CORES))])
         elif k == 8:
             if draw(st.booleans()):
                 ops.append(['define', draw(st.sampled_from(['W', 'DIV', 'T', 'G', 'DEM_GOOD'])), draw(st.sampled_from(DEFS))])
@@ -98,6 +99,7 @@ def run(spec):
     c = Country(mod, 'C')
     s = Sector(c, 'S')
     o = Sector(c, 'O')
+    twin = Sector(Country(mod, 'D'), 'S')
     envs = [{k: Fraction(v) for k, v in e.items()} for e in spec['vals']]
     F = {'LAG_F': Fraction(1)}
     INC = {}
@@ -146,7 +148,7 @@ def run(spec):
                         # any other definition must survive
         elif op[0] == 'excl':
             _, who, name = op
-            mod.AddCashFlowIncomeExclusion(s if who == 'self' else o, name)
+            mod.AddCashFlowIncomeExclusion({'self': s, 'other': o, 'twin': twin}[who], name)
             if who == 'self':
                 if name in income_registered and name not in excl_self:
                     ambiguous.add(name)
